@@ -117,6 +117,11 @@ def phase_order_pairs():
     p2 = dict(name="gamma", gamma=0.055, xe0=0.004, K=1.2e5, xb=0.3, VmB=1.2e-5)
     p3 = dict(name="delta", gamma=0.06, xe0=0.006, K=0.9e5, xb=0.2, VmB=0.9e-5, site="grain boundaries")
     out = []
+    # both phases take the aspect ratio of every size class from their own strain energy (calculateAspectRatio): a plate and a needle
+    sa = dict(name="beta", gamma=0.05, strainAR=("plate", (6.67e-3, 6.67e-3, 2.86e-2), 57.1e9, 0.33))
+    sb = dict(name="gamma", gamma=0.055, xe0=0.004, K=1.2e5, xb=0.3, strainAR=("needle", (2.0e-2, 5.0e-3, 5.0e-3), 57.1e9, 0.33))
+    sbase = dict(D=1e-16, calls=[(10.0, 0.02)], iter="euler", cap=300, pbm=(1e-10, 2e-9, 30, 20, 60, True))
+    out.append((dict(sbase, phases=[sa, sb], tag="order-strainAR-12"), dict(sbase, phases=[sb, sa], tag="order-strainAR-21"), [1, 0], "2 phases with strain-derived aspect ratios"))
     for it in ("euler", "rk4"):
         base = dict(D=1e-16, calls=[(60.0, 0.02), (60.0, 0.02)], iter=it, cap=400, gb=0.03)
         out.append((dict(base, phases=[p1, p2], tag="order-12-%s" % it), dict(base, phases=[p2, p1], tag="order-21-%s" % it), [1, 0], "2 phases/%s" % it))
